@@ -51,6 +51,9 @@ func posMod(raw, n int) int {
 	return r
 }
 
+// idxOpts tells compareContent which index options the stack under test has (C01 sets it per case).
+var idxOpts struct{ neg, fwd bool }
+
 // compareContent checks Len / IsEmpty / Index* / Front / Back against the model.
 func compareContent(s stackage.Stack, m *ListModel, where string) *Violation {
 	if got := s.Len(); got != m.Len() {
@@ -61,6 +64,17 @@ func compareContent(s stackage.Stack, m *ListModel, where string) *Violation {
 	}
 	for i, want := range m.Elems {
 		got, ok := s.Index(i)
+		if idxOpts.neg {
+			// the translated form must address the same position
+			if g2, ok2 := s.Index(i - len(m.Elems)); g2 != got || ok2 != ok {
+				return violf(where+"/index-negative", "%s: Index(%d)=(%#v,%v) but Index(%d)=(%#v,%v) with negative indices on", where, i, got, ok, i-len(m.Elems), g2, ok2)
+			}
+		}
+		if idxOpts.fwd && i == len(m.Elems)-1 {
+			if g2, ok2 := s.Index(i + 7); g2 != got || ok2 != ok {
+				return violf(where+"/index-forward", "%s: Index(%d)=(%#v,%v) but Index(%d)=(%#v,%v) with forward indices on", where, i, got, ok, i+7, g2, ok2)
+			}
+		}
 		if got != want {
 			return violf(where+"/index", "%s: Index(%d)=%#v, model %#v (model content %v)", where, i, got, want, m.Elems)
 		}
@@ -126,6 +140,8 @@ func compareContent(s stackage.Stack, m *ListModel, where string) *Violation {
 }
 
 func runC01(c C01Case) (st Stats, err error) {
+	idxOpts.neg, idxOpts.fwd = c.NegIdx, c.FwdIdx
+	defer func() { idxOpts.neg, idxOpts.fwd = false, false }()
 	var s stackage.Stack
 	m := &ListModel{Cap: c.Cap, FIFO: c.FIFO}
 	tag := 0
@@ -244,9 +260,19 @@ func runC01(c C01Case) (st Stats, err error) {
 					return
 				}
 				want := m.Remove(pos)
-				got, ok := s.Remove(pos)
+				// with the index options on, the same position may be addressed in its translated form
+				arg := pos
+				switch {
+				case c.NegIdx && op.B%3 == 1:
+					arg = pos - n // -1 .. -n
+					st.Class("remove-via-negative-index")
+				case c.FwdIdx && pos == n-1 && op.B%3 == 2:
+					arg = n + op.B // oversize: addresses the last element
+					st.Class("remove-via-forward-index")
+				}
+				got, ok := s.Remove(arg)
 				if got != want || !ok {
-					v = violf("remove/result", "Remove(%d) returned (%#v,%v), model (%#v,true)", pos, got, ok, want)
+					v = violf("remove/result", "Remove(%d) [position %d of %d] returned (%#v,%v), model (%#v,true)", arg, pos, n, got, ok, want)
 				}
 				if lastPopFIFO {
 					st.Class("fifo-pop-then-positional")
@@ -355,6 +381,7 @@ func genC01(t *rapid.T, tier Tier) C01Case {
 			o.Nil = rapid.IntRange(0, 99).Draw(t, "nil?") < 7
 		case "remove":
 			o.A = rapid.IntRange(0, 40).Draw(t, "a")
+			o.B = rapid.IntRange(0, 8).Draw(t, "form")
 		case "swap":
 			o.A = rapid.IntRange(0, 40).Draw(t, "a")
 			o.B = rapid.IntRange(0, 40).Draw(t, "b")
@@ -423,7 +450,7 @@ func init() {
 		EnumNote: "all programs of length <=3 (quick) / <=4 (thorough) over 13 op shapes x 5 kinds x LIFO/FIFO x cap{none,3} x initial length{0,3}",
 		Floors: map[string]float64{
 			"nil-push": 0.01, "reset-with-nil": 0.01, "insert@0": 0.01, "insert@mid": 0.01, "insert@>=len": 0.01,
-			"cap-reached": 0.01, "fifo-pop-then-positional": 0.01, "reverse-odd": 0.01, "reverse-even": 0.01,
+			"cap-reached": 0.01, "fifo-pop-then-positional": 0.01, "reverse-odd": 0.01, "reverse-even": 0.01, "remove-via-negative-index": 0.01, "remove-via-forward-index": 0.003,
 		},
 		Assumptions: []string{"element values are distinct tagged ints/strings; composite values are covered by C05/C08",
 			"Front/Back/Remove on a nil slot are compared leniently (docs silent), see DESIGN.md C01"},
